@@ -29,6 +29,11 @@ walks its plan through id()-hashed sets, so the same query on the same data can 
 between runs carry "outcome_differed_between_runs": true (not part of the key), and an example that execute() never
 reproduced in NATIVE_TRIES runs gets a key ending in ".unconfirmed-through-execute" (none on the pinned tree).
 
+Tiers: quick runs the core subset of the grammar (all single-table queries; every join kind x 16 ON conditions, a 3 x 2
+sample of the ON x WHERE grid; half of the subquery predicates in WHERE form, all in projection form; ALL-variants of the
+composite set-operation shapes left out), thorough the whole grid; data scopes as in databases().  Measured: ~1 ms per
+executor run, i.e. quick ~1100 CPU s (about 70-90 s wall on 16 idle cores), thorough ~11000 CPU s.
+
 Exceptions: ExecuteError -> rejected (the contract allows it; data-dependent rejections are listed under
 "observations", not as violations).  Any exception while optimizing/planning -> the query is rejected-at-plan and
 counted.  An exception other than ExecuteError escaping PythonExecutor.execute -> violation exception:<Class>.
@@ -446,7 +451,7 @@ def gen_join():
         for oi, (tag, on) in enumerate(ons):
             for wi, (wtag, w) in enumerate(wheres):
                 # the quick tier's share of the grid
-                core = (w is None and oi not in (1, 3, 5, 8, 13, 14, 16, 18, 21, 24, 26, 29)) or (oi in (0, 6, 15, 19) and wi in (1, 2, 4))
+                core = (w is None and oi in (0, 2, 4, 6, 7, 9, 11, 12, 15, 17, 19, 20, 22, 25, 27, 28)) or (oi in (0, 6, 15) and wi in (1, 4))
                 out.append((fam, tag + wtag, sel(join(kind, tbl("t"), tbl("u"), on), ALL4, where=w), 2, core))
         # narrower projections (pushdown_projections) and expressions over padded columns
         for tag, on in ons[:1] + ons[6:7] + ons[15:16]:
@@ -600,12 +605,12 @@ def gen_setop():
                 (fam, v + ".one-column", setop(op, all_, sel(T, [(TA, "c0")]), sel(U, [(UB, "c0")])), 2),
                 (fam, "same-table-in-both-branches", setop(op, all_, sel(T, [(TA, "c0")]), sel(T, [(TB, "c0")])), 1),
                 (fam, v + ".filtered-branches", setop(op, all_, sel(T, [(TA, "c0")], where=("isnull", TB)), sel(U, [(UA, "c0")], where=("neq", UB, L(1)))), 2),
-                (fam, v + ".expression-columns", setop(op, all_, sel(T, [(("eq", TA, TB), "c0")]), sel(U, [(("isnull", UA), "c0")])), 2),
-                (fam, v + ".ordered", setop(op, all_, sel(T, [(TA, "c0"), (TB, "c1")]), sel(U, [(UA, "c0"), (UB, "c1")]), order=[(0, True, True), (1, False, False)]), 2),
-                (fam, v + ".derived", sel(sub(setop(op, all_, sel(T, [(TA, "x")]), sel(U, [(UA, "x")])), "s"), [(agg("COUNT_STAR"), "c0"), (agg("COUNT", C("s.x")), "c1")]), 2),
+                (fam, v + ".expression-columns", setop(op, all_, sel(T, [(("eq", TA, TB), "c0")]), sel(U, [(("isnull", UA), "c0")])), 2, not all_),
+                (fam, v + ".ordered", setop(op, all_, sel(T, [(TA, "c0"), (TB, "c1")]), sel(U, [(UA, "c0"), (UB, "c1")]), order=[(0, True, True), (1, False, False)]), 2, not all_),
+                (fam, v + ".derived", sel(sub(setop(op, all_, sel(T, [(TA, "x")]), sel(U, [(UA, "x")])), "s"), [(agg("COUNT_STAR"), "c0"), (agg("COUNT", C("s.x")), "c1")]), 2, not all_),
                 (fam, "nested-operand", setop(op, all_, setop("UNION", True, sel(T, [(TA, "c0")]), sel(U, [(UA, "c0")])), sel(T, [(TB, "c0")])), 2),
                 (fam, "nested-operand", setop(op, all_, sel(T, [(TA, "c0")]), setop("UNION", False, sel(U, [(UA, "c0")]), sel(U, [(UB, "c0")]))), 2),
-                (fam, v + ".aggregate-branches", setop(op, all_, sel(T, [(agg("SUM", TA), "c0")]), sel(U, [(agg("MAX", UB), "c0")])), 2),
+                (fam, v + ".aggregate-branches", setop(op, all_, sel(T, [(agg("SUM", TA), "c0")]), sel(U, [(agg("MAX", UB), "c0")])), 2, not all_),
             ]
     return out
 
@@ -647,8 +652,8 @@ def gen_subquery():
         ("any-correlated", ("quant", "lt", "ANY", TB, ua_corr)),
         ("all-correlated", ("quant", "le", "ALL", TB, ua_corr)),
     ]
-    for tag, p in preds:
-        out.append(("subquery", tag, sel(T, [(TA, "c0"), (TB, "c1")], where=p), 2))
+    for pi, (tag, p) in enumerate(preds):
+        out.append(("subquery", tag, sel(T, [(TA, "c0"), (TB, "c1")], where=p), 2, pi % 2 == 0))
         out.append(("subquery", tag, sel(T, [(TA, "c0"), (TB, "c1"), (p, "c2")]), 2))
         out.append(("subquery", tag, sel(T, [(TA, "c0"), (TB, "c1")], where=("or", p, ("eq", TB, L(1)))), 2, False))
     scalars = [
@@ -898,8 +903,10 @@ def run(tier, seed):
         "evaluations": evaluations,
         "distinct_nontrivial": nontrivial,
         "rule": "(query, database) pairs where the executor returned rows that were compared with the spec and either the result or a referenced table is non-empty",
-        "bound": f"tier={tier}: {len(qs)} generated queries ({dict(Counter(e['family'] for e in qs))}); single-table queries x all {n1} row sequences of <= "
-                 f"{2 if tier == 'quick' else 3} rows x 2 columns over {{NULL,1,2}}; two-table queries x all {n2} pairs of row multisets of the same bound (empty tables included)",
+        "bound": f"tier={tier}: {len(qs)} generated queries ({dict(Counter(e['family'] for e in qs))}; quick = the core subset of the grammar, thorough = all); "
+                 f"single-table queries x all {n1} row sequences of <= {2 if tier == 'quick' else 3} rows x 2 columns over {{NULL,1,2}}; two-table queries x all pairs of row "
+                 f"multisets (empty tables included): {n2} pairs (<= {2 if tier == 'quick' else 3} rows each" + (", without the 3 x 3 pairs" if tier != "quick" else "")
+                 + f") for core queries" + (f", {len(databases_cached(tier, 2, False))} pairs (<= 2 rows each) for the non-core ones" if tier != "quick" else ""),
         "exhaustive": True,
         "queries": len(qs),
         "evaluations_by_family": dict(fam_evals),
